@@ -145,6 +145,10 @@ func relUnsafe(s, u []byte, ch []chunk) (int, error) {
 			}
 			i += len(safeForm)
 			j += len(k.raw)
+			// a block line that ends the input without a line ending: the renderer may terminate it (EOF as newline)
+			if k.block && !bytes.HasSuffix(k.raw, []byte("\n")) && j < len(u) && u[j] == '\n' {
+				j++
+			}
 			c++
 			if !bytes.Equal([]byte(safeForm), k.raw) {
 				edits++
